@@ -31,9 +31,16 @@ def datasets(rng, n, tag):
     out = []
     for j in range(n):
         t0 = rng.choice([1, -1]) * rng.uniform(0.5, 5)
+        t1 = rng.choice([1, -1]) * rng.uniform(0.5, 5)
         if j % 3 == 2:
             t0 = rng.choice([1, -1]) * rng.uniform(0.0, 0.05)       # an intercept that the code-length rule snaps to zero
-        t1 = rng.choice([1, -1]) * rng.uniform(0.5, 5)
+        elif j % 3 == 1 and n == 2:
+            # (calls with two data sets: the second one has a coefficient that snaps, alternately the intercept and the slope;
+            #  a snapped parameter makes the pipeline re-evaluate the likelihood of every variant at its transferred parameters)
+            if rng.random() < 0.5:
+                t0 = rng.choice([1, -1]) * rng.uniform(0.0, 0.05)
+            else:
+                t1 = rng.choice([1, -1]) * rng.uniform(0.0, 0.02)
         t2 = rng.choice([0.0, 0.0, rng.choice([1, -1]) * rng.uniform(0.3, 1.0)])
         out.append({"id": "%s%d" % (tag, j), "dseed": rng.randrange(2 ** 31), "truth": [t0, t1, t2], "sigma": rng.choice([0.1, 0.2, 0.3]), "n": rng.choice([20, 30, 40])})
     return out
